@@ -488,16 +488,15 @@ func GenStatic(t *sim.T, c StaticCfg) *StaticModel {
 		for i := range depth {
 			depth[i] = t.Weighted(3, 4, 1)
 		}
+		var byDepth [3][]int
+		for j := range depth {
+			byDepth[depth[j]] = append(byDepth[depth[j]], j)
+		}
 		for i := 0; i < c.Stops; i++ {
 			parent := ""
 			if depth[i] > 0 {
-				// find some stop with depth-1
-				var cands []int
-				for j := range depth {
-					if depth[j] == depth[i]-1 {
-						cands = append(cands, j)
-					}
-				}
+				// some stop with depth-1
+				cands := byDepth[depth[i]-1]
 				if len(cands) > 0 {
 					parent = m.StopIDs[cands[t.Choose(len(cands))]]
 				}
